@@ -668,7 +668,7 @@ Proof.
                      (dying s) (lp s) (gproc s) (pp s)); sfc; rs_proj; try assumption; try reflexivity;
            apply clo_R_invoke_run; assumption.
       eapply (rs_R_of _ _ (conn_no s) _ (ackq s) _ (lp s) (gproc s) (pp s)); sfc; rs_proj; try reflexivity; try eassumption. eapply clo_R_invoke_del; eassumption.
-    + inv_some H. eexists; split; [reflexivity|]. split; [reflexivity|split; assumption].
+    + bm H; inv_some H. eexists; split; [reflexivity|]. split; [reflexivity|split; assumption].
   - (* EAckRet *)
     exists (RsSt (conn_no s) rlast rnl rclo rinv rdone). split; [reflexivity|].
     destruct (clo_find (clos s) k) as [c|] eqn:Ek; [|discriminate H].
@@ -676,7 +676,7 @@ Proof.
     + destruct (g =? g0); [|discriminate H]. inv_some H.
       eapply (rs_R_of _ _ (conn_no s) _ (ackq s) _ (lp s) (gproc s) (pp s)); sfc; rs_proj; try reflexivity; try eassumption.
       apply (clo_R_same _ _ _ _ _ _ _ _ _ _ CDone HC Ek); rewrite ?Est; reflexivity.
-    + inv_some H. split; [reflexivity|split; assumption].
+    + bm H; inv_some H. split; [reflexivity|split; assumption].
   - (* EDelete Incoming: a running pubcomp closure *)
     destruct d; [|discriminate H].
     exists (RsSt (conn_no s) rlast rnl rclo rinv rdone). split; [reflexivity|].
@@ -700,4 +700,176 @@ Proof.
     pose proof (clo_find_of_in _ _ Hnd Hin) as Ek. inv_some H.
     eapply (rs_R_of _ _ (conn_no s) _ (ackq s) _ (lp s) (gproc s) (pp s)); sfc; rs_proj; try reflexivity; try eassumption.
     apply (clo_R_same _ _ _ _ _ _ _ _ _ _ (CDieClose g) HC Ek); rewrite ?Est; reflexivity.
+Qed.
+
+(* ------------------------------------------------------------------- acker *)
+
+Lemma step_cleanup_open s e s' : step_cleanup s e = Some s' -> lp s <> LEnd.
+Proof. unfold step_cleanup. intros H E. rewrite E in H. discriminate H. Qed.
+
+Lemma rs_ack_step s t e s' g :
+  rs_I s -> rs_R s t -> ev_g e = Some g -> is_role (gproc s) g = false ->
+  step_ack s e = Some s' -> exists t', rs_step t e = Some t' /\ rs_R s' t'.
+Proof.
+  intros [(_ & _ & _ & _ & Hackok) _] (HA & HC & HL) Hg Hr H.
+  destruct t as [rc rlast rnl rclo rinv rdone]. rs_proj. subst rc.
+  unfold step_ack in H. destruct (ap s) eqn:Eap; destruct e; try discriminate H.
+  - (* AIdle, ETx *)
+    cbn [ev_g] in Hg. injection Hg as ->.
+    destruct async; [|discriminate H]. destruct (ackq_take (ackq s) p) as [q'|] eqn:Eq; [|discriminate H].
+    assert (Hack : is_ack_packet p = true).
+    { unfold all_ok in Hackok. rewrite Forall_forall in Hackok. apply Hackok. eapply ackq_take_in; exact Eq. }
+    cbn [rs_step]; rs_proj. rewrite (last_R_other _ _ _ _ _ HL Hr), Hack.
+    pose proof HC as (_ & _ & _ & HLo & _).
+    assert (Hpos : (0 < flen (invf rclo (conn_no s) p) rinv)%nat).
+    { specialize (HLo p). pose proof (ackq_take_pos _ _ _ Eq). lia. }
+    destruct (rs_pick_ex (RsSt (conn_no s) rlast rnl rclo rinv rdone) rinv p Hpos) as [k Hk].
+    rewrite Hk. destruct (rs_pick_some _ _ _ _ Hk) as [Hin Hf]. rs_proj.
+    eexists. split; [reflexivity|].
+    pose proof (clo_R_take _ _ _ _ _ _ _ _ _ _ _ HC Eq Hin Hf) as HC'.
+    destruct ok; inv_some H.
+    + unfold ack_token_back. destruct p; try discriminate Hack;
+        eapply (rs_R_of _ _ (conn_no s) (clos s) q' (dying s) (lp s) (gproc s) (pp s)); sfc; rs_proj;
+        try reflexivity; try eassumption.
+    + eapply (rs_R_of _ _ (conn_no s) (clos s) q' (dying s) (lp s) (gproc s) (pp s)); sfc; rs_proj;
+        try reflexivity; try eassumption.
+  - (* ADieLog, EDie *)
+    destruct k; try discriminate H. inv_some H. eexists. split; [reflexivity|].
+    eapply (rs_R_of _ _ (conn_no s) (clos s) (ackq s) (dying s) (lp s) (gproc s) (pp s)); sfc; rs_proj;
+      try reflexivity; try eassumption.
+  - (* ADieClose, EConnClose *)
+    inv_some H. eexists. split; [reflexivity|].
+    eapply (rs_R_of _ _ (conn_no s) (clos s) (ackq s) true (lp s) (gproc s) (pp s)); sfc; rs_proj;
+      try reflexivity; try eassumption.
+    eapply clo_R_weaken; [exact HC|discriminate|auto].
+Qed.
+
+(* --------------------------------------------------------------- all steps *)
+
+Lemma quiescent_parts s : quiescent s = true ->
+  dying s = false /\ pp s = PLoop /\ ackq s = [] /\ lp s = LNone /\ forallb clo_idle (clos s) = true.
+Proof.
+  unfold quiescent. intros H.
+  destruct (conn_open s); [|discriminate H]. destruct (dying s); [discriminate H|].
+  destruct (pp s); try discriminate H. destruct (dp s); try discriminate H. destruct (ap s); try discriminate H.
+  destruct (ackq s); try discriminate H. destruct (lp s); try discriminate H.
+  cbn [andb negb] in H. repeat split; try reflexivity. exact H.
+Qed.
+
+Lemma step_deq_dying s e s' : step_deq s e = Some s' -> dying s' = false -> dying s = false.
+Proof.
+  intros H. unfold step_deq, take_deq, guard in H.
+  destruct (dp s); destruct e; try discriminate H; bm H; inv_some H;
+    repeat match goal with |- context [match ?b with _ => _ end] => destruct b end; sf; auto; discriminate.
+Qed.
+
+Lemma rs_step_lemma s t e s' :
+  rs_I s -> rs_R s t -> step s e = Some s' -> exists t', rs_step t e = Some t' /\ rs_R s' t'.
+Proof.
+  intros Hi HR H. pose proof Hi as [Hst Hcl]. pose proof HR as (HA & HC & HL).
+  destruct (step_cases _ _ _ H) as
+      [-> Hl -> | -> Ho -> | -> Hq -> | Hc | -> Hc | g s1 Ho Hg Hc Hin Hv Hp | g s1 Ho Hg Hc Hin R1 Hv Hp
+      | g s1 Ho Hg Hc Hin R1 R2 Hv Hp | g s1 Ho Hg Hc Hin R1 R2 R3 Hv Hp | g -> Ho Hc Hin Hfr ->].
+  - (* ENewConn *)
+    eexists. split; [reflexivity|]. destruct Hcl as (_ & Hle & _).
+    unfold rs_R; rs_proj; sf. split; [rewrite HA; reflexivity|]. split.
+    + eapply clo_R_new; eassumption.
+    + split; [left; reflexivity|]. intros Hx. contradiction.
+  - exists t. split; [reflexivity|exact HR].
+  - (* EQuiescent *)
+    destruct (quiescent_parts _ Hq) as (Q1 & Q2 & Q3 & Q4 & Q5).
+    cbn [rs_step].
+    assert (Hlpe : lp s <> LEnd) by (rewrite Q4; discriminate).
+    pose proof HC as (HB & HH & _ & _ & HU). specialize (HU Q1 Hlpe).
+    assert (Hmid : forall p, flen (midf (conn_no s) p) (clos s) = 0%nat).
+    { intros p. apply flen_all_false. intros c Hc'. rewrite forallb_forall in Q5. specialize (Q5 c Hc').
+      unfold midf. unfold clo_idle in Q5. destruct (c_stat c); try discriminate Q5; cbn [is_mid];
+        rewrite andb_false_r; reflexivity. }
+    assert (F1 : forallb (fun k => match aget (rs_clo t) k with Some (c, _) => negb (c =? rs_conn t) | None => true end)
+                   (rs_inv t) = true).
+    { apply forallb_forall. intros k Hk. destruct (aget (rs_clo t) k) as [[c q]|] eqn:E; [|reflexivity].
+      specialize (HU q). rewrite Q3, Hmid in HU. cbn in HU.
+      assert (Hz : flen (invf (rs_clo t) (conn_no s) q) (rs_inv t) = 0%nat) by lia.
+      pose proof (flen_zero_all _ _ Hz k Hk) as Hf. unfold invf in Hf. rewrite E, packet_eqb_refl, andb_true_r in Hf.
+      rewrite HA, Hf. reflexivity. }
+    assert (F2 : forallb (fun e => match snd e with (Pingreq, false) => false | _ => true end) (rs_last t) = true).
+    { destruct HL as [[->|(g0 & lastp & a & _ & -> & Hok & _)] _]; [reflexivity|].
+      rewrite Q2 in Hok. cbn [pp_last_ok] in Hok. cbn [forallb snd]. rewrite andb_true_r.
+      destruct lastp; try reflexivity. rewrite (Hok eq_refl). reflexivity. }
+    rewrite F1, F2. exists t. split; [reflexivity|exact HR].
+  - (* closure *)
+    eapply rs_clo_step; eassumption.
+  - (* EClosed *)
+    exists t. split; [reflexivity|]. pose proof (step_cleanup_open _ _ _ Hc) as Hopen.
+    destruct (step_cleanup_shape _ _ _ Hc) as (p & d & a & l & -> & Hsh).
+    destruct Hsh as [(-> & -> & -> & Hn)|(Hn & Hstop & -> & -> & ->)];
+      eapply (rs_R_of _ _ (conn_no s) (clos s) (ackq s) (dying s) l (gproc s)); sfc; try reflexivity; try eassumption;
+      try (eapply clo_R_weaken; [exact HC|auto|auto]).
+    apply last_R_freeze; [|exact HL]. unfold all_stopped in Hstop.
+    apply andb_true_iff in Hstop as [Hstop _]. apply andb_true_iff in Hstop as [Hstop _]. exact Hstop.
+  - (* processor *)
+    eapply (rs_proc s1 t e s' g (gproc s)); try eassumption.
+    + destruct Hv as [[-> _]|(_ & _ & -> & _)]; exact Hi.
+    + destruct Hv as [[-> _]|(_ & _ & -> & _)]; exact HA.
+    + destruct Hv as [[-> _]|(_ & _ & -> & _)]; exact HC.
+    + destruct Hv as [[-> _]|(_ & _ & -> & _)]; exact HL.
+    + destruct Hv as [[-> Hx]|(_ & _ & -> & _)]; [exact Hx|reflexivity].
+    + destruct Hv as [[-> Hx]|(Hx & _ & -> & Hrx)]; [left; exact Hx|right; split; assumption].
+  - (* dequeuer *)
+    assert (Hgp : gproc s1 = gproc s) by (destruct Hv as [[-> _]|(_ & _ & ->)]; reflexivity).
+    assert (Hdp1 : dp s1 = dp s) by (destruct Hv as [[-> _]|(_ & _ & ->)]; reflexivity).
+    assert (HR' : rs_R s' t).
+    { destruct (step_deq_shape _ _ _ Hp) as (se & d & dy & t1 & t2 & t3 & ->).
+      assert (Hdy : dy = false -> dying s = false).
+      { intros Hd. pose proof (step_deq_dying _ _ _ Hp) as Hx. sfc. specialize (Hx Hd).
+        destruct Hv as [[-> _]|(_ & _ & ->)]; exact Hx. }
+      eapply (rs_R_of _ _ (conn_no s) (clos s) (ackq s) dy (lp s) (gproc s) (pp s)); sfc; try reflexivity;
+        try (destruct Hv as [[-> _]|(_ & _ & ->)]; reflexivity); try eassumption.
+      eapply clo_R_weaken; [exact HC|exact Hdy|auto]. }
+    destruct (rs_neutral e) eqn:Hn; [exists t; split; [apply rs_neutral_step, Hn|exact HR']|].
+    unfold step_deq, guard in Hp. rewrite Hdp1 in Hp.
+    destruct (dp s) eqn:Edp; destruct e; try discriminate Hp; try discriminate Hn.
+    cbn [ev_g] in Hg. injection Hg as ->. destruct Hst as (_ & _ & _ & Hdpok & _). rewrite Edp in Hdpok. cbn [dp_ok] in Hdpok.
+    destruct async; try discriminate Hp. destruct (packet_eqb p p0) eqn:Ep; [|discriminate Hp].
+    apply packet_eqb_eq in Ep. subst p0.
+    cbn [rs_step]. rewrite (last_R_other _ _ _ _ _ HL R1).
+    exists t. split; [|exact HR']. destruct p; try discriminate Hdpok; reflexivity.
+  - (* acker *)
+    assert (Hx : exists t', rs_step t e = Some t' /\ rs_R s' t').
+    { destruct Hv as [[-> _]|(_ & _ & ->)].
+      - eapply rs_ack_step; eassumption.
+      - eapply (rs_ack_step (set_roles s (gproc s) (gdeq s) (Some g) (gcl s))); try eassumption. }
+    exact Hx.
+  - (* cleanup *)
+    assert (Hn : rs_neutral e = true).
+    { unfold step_cleanup in Hp. destruct (lp s1); destruct e; try discriminate Hp; try reflexivity.
+      destruct k; [discriminate Hp|reflexivity]. }
+    exists t. split; [apply rs_neutral_step, Hn|]. pose proof (step_cleanup_open _ _ _ Hp) as Hopen.
+    destruct (step_cleanup_shape _ _ _ Hp) as (p & d & a & l & -> & Hsh).
+    assert (Hlp1 : lp s1 = lp s) by (destruct Hv as [[-> _]|(_ & _ & ->)]; reflexivity).
+    assert (Hpp1 : pp s1 = pp s) by (destruct Hv as [[-> _]|(_ & _ & ->)]; reflexivity).
+    assert (Hgp1 : gproc s1 = gproc s) by (destruct Hv as [[-> _]|(_ & _ & ->)]; reflexivity).
+    assert (Hdy1 : dying s1 = dying s) by (destruct Hv as [[-> _]|(_ & _ & ->)]; reflexivity).
+    rewrite Hlp1 in Hopen.
+    destruct Hsh as [(-> & -> & -> & Hnn)|(Hnn & Hstop & -> & -> & ->)];
+      eapply (rs_R_of _ _ (conn_no s) (clos s) (ackq s) (dying s) l (gproc s)); sfc; rewrite ?Hpp1; try reflexivity;
+      try (destruct Hv as [[-> _]|(_ & _ & ->)]; reflexivity); try eassumption;
+      try (eapply clo_R_weaken; [exact HC|auto|auto]).
+    rewrite <- Hgp1. apply last_R_freeze.
+    + unfold all_stopped in Hstop.
+      apply andb_true_iff in Hstop as [Hstop _]. apply andb_true_iff in Hstop as [Hstop _]. exact Hstop.
+    + rewrite Hgp1, Hpp1. exact HL.
+  - (* Close() from outside *)
+    exists t. split; [reflexivity|].
+    eapply (rs_R_of _ _ (conn_no s) (clos s) (ackq s) true (lp s) (gproc s) (pp s)); sfc; try reflexivity; try eassumption.
+    eapply clo_R_weaken; [exact HC|discriminate|auto].
+Qed.
+
+Theorem c20_responses_holds : forall es s, bc_run es = Some s -> c20_responses es = true.
+Proof.
+  unfold c20_responses.
+  apply (scan_sound_inv rs_step rs_I rs_R rs_I_init rs_I_step rs_step_lemma).
+  unfold rs_R; cbn. split; [reflexivity|]. split.
+  - unfold clo_R, tab_R; cbn. repeat split; intros; try discriminate; try contradiction; auto.
+  - split; [left; reflexivity|]. intros _ Hd. discriminate Hd.
 Qed.
